@@ -74,6 +74,41 @@ func init() {
 			fmt.Fprintf(b, "/-- internal/streams/muxstream_connection.go: methods of MuxStreamConnection that io.Copy would use instead of its Read/Write -/\ndef muxStreamFastPaths : List String := [%s]\n\n", strings.Join(q, ", "))
 		}
 
+		// --- logWriter.Write (the tee of the debug-mode copy loop): must report the whole chunk as written, or
+		// io.MultiWriter ends the copy with ErrShortWrite
+		{
+			pf := parse("internal/streams/pipes.go")
+			lw := findFunc(pf, "logWriter", "Write")
+			honest := lw != nil
+			nret := 0
+			if lw != nil {
+				ast.Inspect(lw.Body, func(n ast.Node) bool {
+					if r, ok := n.(*ast.ReturnStmt); ok {
+						nret++
+						if len(r.Results) != 2 || src(r.Results[0]) != "len(p)" || src(r.Results[1]) != "nil" {
+							honest = false
+						}
+					}
+					return true
+				})
+				// the parameter must still be the slice it was given when its length is taken
+				ast.Inspect(lw.Body, func(n ast.Node) bool {
+					if as, ok := n.(*ast.AssignStmt); ok {
+						for _, l := range as.Lhs {
+							if src(l) == "p" {
+								honest = false
+							}
+						}
+					}
+					return true
+				})
+			}
+			if nret == 0 {
+				honest = false
+			}
+			fmt.Fprintf(b, "/-- internal/streams/pipes.go logWriter.Write: every return is `len(p), nil` and `p` is not reassigned -/\ndef logWriterReturnsLen : Bool := %v\n\n", honest)
+		}
+
 		// --- smux MaxFrameSize on both ends
 		bufEnv := fileConsts(parse("internal/util/buffers/buffer.go"), nil)
 		en := env{"buffers.BufferSize": bufEnv["BufferSize"]}
